@@ -91,7 +91,17 @@ def engine_case_s():
             "mode": st.just("engine"), "v": st.just(list(v)),
             "steps": st.lists(steps_s(v), min_size=2, max_size=10),
             "chunks": st.lists(st.integers(1, 200), min_size=0, max_size=4)})
-    return st.sampled_from(W.VERSIONS).flatmap(for_v)
+
+    def versioned_step(v):
+        return steps_s(v).map(lambda stp: dict(stp, v=list(v)))
+
+    # one client object whose kmip_version is changed between calls (client.kmip_version setter)
+    switching = st.fixed_dictionaries({
+        "mode": st.just("engine"), "v": st.sampled_from([list(x) for x in W.VERSIONS]),
+        "steps": st.lists(st.sampled_from(W.VERSIONS).flatmap(versioned_step), min_size=2, max_size=8),
+        "chunks": st.lists(st.integers(1, 200), min_size=0, max_size=4)})
+    return st.one_of(st.sampled_from(W.VERSIONS).flatmap(for_v), st.sampled_from(W.VERSIONS).flatmap(for_v),
+                     switching)
 
 
 # ----------------------------------------------------------------------------- execution
@@ -163,6 +173,11 @@ def run_engine(spec):
     nontrivial = False
     try:
         for i, stp in enumerate(spec["steps"]):
+            if "v" in stp and tuple(stp["v"]) != v:
+                v = tuple(stp["v"])
+                client.kmip_version = W.kmip_version_enum(v)
+                classes.append("version-switched-mid-session")
+                nontrivial = True
             op = OPS[stp["op"]]
             api = stp["api"]
             a = resolve_args(stp["args"], uids)
